@@ -65,7 +65,7 @@ def _presence_predicate(w, fb):
     if inner:
         # returns exactly the result of an all(contains) test
         ret = flow.origins_x(lib, fb, 0)
-        return any(x[0] == "call" and x[1].endswith("Iterator::all") for x in ret) and not [x for x in ret if x[0] in ("arith",)]
+        return any(x[0] == "call" and re.search(r"Iterator>?::all$", x[1]) for x in ret) and not [x for x in ret if x[0] in ("arith",)]
     cont = events_of(lib, fb, "blockdir::BlockDir::contains")
     nxt = [x for x in fb.events if x.bb in fb.live and x.callee == "std::iter::Iterator::next"]
     if len(cont) != 1 or len(nxt) != 1:
